@@ -286,6 +286,13 @@ pub fn run(seed: u64, n: usize, out: &mut dyn Write) {
             write(&env, "t_char.def", s.chardef.as_bytes());
             write(&env, "feature.def", s.feature_def.as_bytes());
             write(&env, "rewrite.def", s.rewrite_def.as_bytes());
+            // corpus lines that begin or end with white space: a space token, an empty feature column
+            let mut corpus = s.corpus.clone();
+            if rng.below(2) == 0 {
+                corpus.push_str(*rng.pick(&["\u{3000}\tN,sp\nEOS\n", " \tN\nEOS\n", "q\t\nEOS\n", "a \tN,x \nEOS\n"]));
+            }
+            let s = Setup { lex: s.lex.clone(), chardef: s.chardef.clone(), unk: s.unk.clone(), feature_def: s.feature_def.clone(),
+                            rewrite_def: s.rewrite_def.clone(), corpus, user: s.user.clone(), k: s.k, slash: s.slash, rows: vec![] };
             write(&env, "corpus.txt", s.corpus.as_bytes());
             let (st_t, _) = run_bin(
                 &env,
@@ -313,7 +320,30 @@ pub fn run(seed: u64, n: usize, out: &mut dyn Write) {
                             _ => false,
                         };
                         if !same {
-                            diffs.push("train-model-differs".to_string());
+                            // is training itself reproducible on this set-up? (two in-process runs)
+                            let mut m2 = train(&s, reg, iters);
+                            let g2 = m2.as_mut().and_then(generate);
+                            let repro = match (&g2, &g_lib) {
+                                (Some(Ok(a)), Some(Ok(b))) => same_files(a, b),
+                                _ => false,
+                            };
+                            if std::env::var("VERIF_CLI_DEBUG").is_ok() {
+                                for (f, want) in [("seed_lex.csv", &s.lex), ("seed_unk.def", &s.unk), ("t_char.def", &s.chardef), ("feature.def", &s.feature_def), ("rewrite.def", &s.rewrite_def), ("corpus.txt", &s.corpus)] {
+                                    eprintln!("FILE {f} same={} len={}", read(&env, f) == want.as_bytes(), want.len());
+                                }
+                                eprintln!("ARGS lambda={reg} iters={iters}");
+                                if let (Some(Ok(a)), Some(Ok(b))) = (&g_t, &g_lib) {
+                                    for (n, x, y) in [("lex", &a.lex, &b.lex), ("matrix", &a.matrix, &b.matrix), ("unk", &a.unk, &b.unk), ("left", &a.left, &b.left), ("right", &a.right, &b.right), ("cost", &a.cost_sorted, &b.cost_sorted)] {
+                                        if x != y {
+                                            eprintln!("DIFF {n}:\n--- program\n{}\n--- library\n{}\n--- corpus\n{}", String::from_utf8_lossy(x), String::from_utf8_lossy(y), s.corpus);
+                                            break;
+                                        }
+                                    }
+                                } else {
+                                    eprintln!("DIFF status {:?} {:?}", g_t.as_ref().map(|x| x.is_ok()), g_lib.as_ref().map(|x| x.is_ok()));
+                                }
+                            }
+                            diffs.push(if repro { "train-model-differs".to_string() } else { "train-not-reproducible-in-process".to_string() });
                         }
                     }
                 }
@@ -504,6 +534,19 @@ pub fn run(seed: u64, n: usize, out: &mut dyn Write) {
             // ---- reorder (statistics of connection ids over the sentences) and map with its output
             steps.push("reorder");
             {
+                // blank lines between and after the sentences (they must contribute nothing)
+                let mut rsents: Vec<String> = vec![];
+                for x in &sents {
+                    rsents.push(x.clone());
+                    if rng.below(3) == 0 {
+                        rsents.push(String::new());
+                    }
+                    if rng.below(6) == 0 {
+                        rsents.push(String::new());
+                    }
+                }
+                let sents = rsents;
+                let input: Vec<u8> = sents.iter().flat_map(|x| x.bytes().chain(std::iter::once(b'\n'))).collect();
                 let (st_r, _) = run_bin(&env, "reorder", &["-i".into(), p(&env, "sys.dic.zst"), "-o".into(), p(&env, "reordered")], Some(&input));
                 let lib = guarded(|| -> Result<(Vec<u8>, Vec<u8>, Vec<u16>, Vec<u16>), ()> {
                     let d = Dictionary::read(&bytes[..]).map_err(|_| ())?;
